@@ -73,7 +73,11 @@ func runC02(e *Env) {
 			if f == nil {
 				continue
 			}
-			for _, g := range core.WithAnon(f) {
+			fam := core.WithAnon(f)
+			for _, h := range core.AbsorbedInto(f) {
+				fam = append(fam, h) // helpers analysed as part of the decoder: their own accesses, with the facts their call sites establish
+			}
+			for _, g := range fam {
 				b := core.NewBounds(e.P, g, sums)
 				obls := b.Obligations()
 				for _, o := range obls {
